@@ -20,6 +20,11 @@ def sym_float(v=0.0):
         return v
     if isinstance(v, SymInt):
         return SymReal(z3.ToReal(v.expr))
+    if not isinstance(v, (int, _float, str, bytes)) and hasattr(type(v), "__float__"):
+        r = type(v).__float__(v)  # builtin float() would strip a proxy returned by a user-defined __float__
+        if isinstance(r, (SymReal, SymFP)):
+            return r
+        return _float(r)
     return _float(v)
 
 
@@ -159,8 +164,13 @@ class SymArray(numpy.ndarray):
                 conv.append(x.astype(object))
             else:
                 conv.append(x)
-        kwargs.pop("out", None)
+        out = kwargs.pop("out", None)
         r = getattr(ufunc, method)(*conv, **kwargs)
+        if out is not None:
+            # in-place semantics (a *= k): write through to the target array, as a float64 ndarray would
+            tgt = out[0] if isinstance(out, tuple) else out
+            tgt.view(numpy.ndarray)[...] = r
+            return tgt
         if isinstance(r, numpy.ndarray):
             if r.dtype == object:
                 return r.view(SymArray)
